@@ -78,6 +78,9 @@ def inject_run(opcode, operands):
                     context=CallContext(msg), pgm=code, path=Path(mk_solver(args)))
     ex.st.stack.extend(reversed(operands))
     outs = []
+    # this run does not go through symrun.run_symbolic: the step budget left behind by an earlier run in this process must not apply
+    symrun.MON.steps = 0
+    symrun.MON.step_budget = 0
     try:
         for e in sv.run(ex):
             o = e.context.output
